@@ -27,10 +27,11 @@ class C10(Check):
         "V3": "concatenated views are pd.concat(<per-segment list>, axis=0) in list order",
         "V6": "normalisation is applied exactly once per view: the `normalise` argument flows into exactly one normalising call on every "
               "path (a view that forwards it to an inner view must not apply it again)",
+        "V7": "get_new_y0 is the last row of the plain variables (no derived quantities / readouts / surrogate outputs) of the concatenated result",
         "V4": "producers select coefficients > 0, consumers < 0; scaled views multiply by the coefficient (consumers by its negation)",
         "V5": "all views read the lazily filled argument table through the single filler, which fills at most once, one table per segment",
     }
-    floors = {"V1": 4, "V2": 4, "V3": 3, "V4": 4, "V5": 3, "V6": 5}
+    floors = {"V1": 4, "V2": 4, "V3": 3, "V4": 4, "V5": 3, "V6": 5, "V7": 1}
     decided = [
         "every normalisation argument shape yields a view computed from the data and the factors (no dead branch)",
         "quantities of a segment are computed under that segment's parameter values",
@@ -48,6 +49,15 @@ class C10(Check):
         self.v4(mod)
         self.v5(mod)
         self.v6(mod)
+        g = mod.methods(CLS).get("get_new_y0")
+        if g is None:
+            raise AnalysisError("Simulation.get_new_y0 missing")
+        t = norm(g.body[-1])
+        if t == "return dict(self.get_variables(include_derived_variables=False, include_readouts=False, include_surrogate_variables=False).iloc[-1])":
+            self.holds("V7", MOD, f"{CLS}.get_new_y0", "last-row-of-variables", g, "last row of the plain variables")
+        else:
+            self.violated("V7", MOD, f"{CLS}.get_new_y0", "last-row-of-variables", g, f"`{t[:90]}` is not the last row of the plain variables",
+                          witness="get_new_y0() returns the first state / includes derived quantities, so a restarted simulation begins elsewhere")
 
     # ------------------------------------------------------------------
     def v1(self, mod) -> None:
@@ -370,6 +380,7 @@ class C10(Check):
             Variant("producers-normalised-twice", MOD, f"{CLS}.get_producers", "    if concatenated:\n        return pd.concat(fluxes, axis=0)\n    return fluxes",
                     "    return self._adjust_data(fluxes, normalise=normalise, concatenated=concatenated)", expect="V6|", quick=True),
             Variant("fluxes-never-normalised", MOD, f"{CLS}.get_fluxes", "return self._adjust_data(fluxes, normalise=normalise, concatenated=concatenated)", "return self._adjust_data(fluxes, normalise=None, concatenated=concatenated)", expect="V6|"),
+            Variant("new-y0-first-row", MOD, f"{CLS}.get_new_y0", ".iloc[-1]", ".iloc[0]", expect="V7|"),
             Variant("filler-refills", MOD, f"{CLS}._compute_args", "    if len(self.raw_args) > 0:\n        return self.raw_args\n", "", expect="V5|", quick=True),
             Variant("view-bypasses-filler", MOD, f"{CLS}.get_fluxes", "self._compute_args()", "self.raw_args", expect="V5|"),
         ]
